@@ -62,42 +62,7 @@ def claimed_reexports(case: Any) -> List[Dict[str, Any]]:
     return out
 
 
-def via_of(case: Any, fn: List[str], mi: int, dotted: str, r: Dict[str, Any]) -> Tuple[Optional[str], Optional[str]]:
-    """Does `dotted`, written in module mi, denote (in Python) the object re-exported by r or one of its members?
-    Returns (via, expected full name): via in from-D star-D from-R star-R attr-D attr-R local other."""
-    new = fn[r['R']] + '.' + r['n']
-    parts = dotted.split('.')
-    ddef = P.defs_of(case['mods'][r['D']])[r['x']]
-    members = [m[1] for m in ddef[4]] if ddef[0] == 'class' else []
-    for cut in (len(parts), len(parts) - 1):
-        if cut < 1:
-            continue
-        how, ent = P.denote(case, fn, mi, '.'.join(parts[:cut]))
-        if ent != ('def', r['D'], r['x']):
-            continue
-        suffix = parts[cut:]
-        if suffix and (suffix[0] not in members or members.count(suffix[0]) != 1):
-            return None, None
-        expected = '.'.join([new] + suffix)
-        if cut == 1:
-            if how == 'def':
-                via = 'local'
-            elif how in ('from:%d' % r['D'], 'star:%d' % r['D']):
-                via = how.split(':')[0] + '-D'
-            elif how in ('from:%d' % r['R'], 'star:%d' % r['R']):
-                via = how.split(':')[0] + '-R'
-            else:
-                via = 'other'
-        else:
-            _, cont = P.denote(case, fn, mi, '.'.join(parts[:cut - 1]))
-            if cont == ('mod', r['D']):
-                via = 'attr-D'
-            elif cont == ('mod', r['R']):
-                via = 'attr-R'
-            else:
-                via = 'other'
-        return via, expected
-    return None, None
+last_binding, stale_chain, via_of = P.last_binding, P.stale_chain, P.via_of
 
 
 def oracle_one(case: Any, dump: Any) -> List[Dict[str, Any]]:
@@ -109,9 +74,20 @@ def oracle_one(case: Any, dump: Any) -> List[Dict[str, Any]]:
     objects, scopes = dump['objects'], dump['scopes']
     seen = dump.get('order_seen', [])
 
-    def before(mi: int, r: Any) -> bool:
-        """was module mi analysed (started) before the re-exporter of r? (then a name copied from the defining module
-        by a star import is the pre-move name)"""
+    events = dump.get('events')
+
+    def before(mi: Optional[int], r: Any) -> bool:
+        """did the star import of the defining module in module mi finish BEFORE the re-export moved the object? (then the
+        name it copied is the pre-move name).  From the events recorded during the run; without them: was mi started
+        before the re-exporter."""
+        if mi is None:
+            return False
+        if events is not None:
+            new = fn[r['R']] + '.' + r['n']
+            mv = [i for i, e in enumerate(events) if e[0] == 'move' and e[1] == new]
+            if not mv:
+                return False
+            return any(e[0] == 'star-done' and e[1] == fn[mi] and e[2] == fn[r['D']] for e in events[:mv[0]])
         a, b = fn[mi], fn[r['R']]
         return a in seen and b in seen and seen.index(a) < seen.index(b)
     # the defining module exports the name itself: the object stays documented where it is defined
@@ -165,11 +141,12 @@ def oracle_one(case: Any, dump: Any) -> List[Dict[str, Any]]:
                 fails.append({'kind': 'location', 'via': None, 'what': '%s: documented more than once: %s' % (tag, twins)})
         # every reference that names either location leads to it
         for mi, m in enumerate(case['mods']):
-            for st in m['stmts']:
+            for si, st in enumerate(m['stmts']):
                 if st[0] != 'class':
                     continue
                 for pos, b in enumerate(st[3]):
-                    via, expected = via_of(case, fn, mi, b, r)
+                    # a base expression only sees the bindings made before the class statement
+                    via, expected, holder = via_of(case, fn, mi, b, r, si)
                     if via is None or via == 'other':
                         continue
                     keys = [fn[mi] + '.' + st[1]]
@@ -180,7 +157,7 @@ def oracle_one(case: Any, dump: Any) -> List[Dict[str, Any]]:
                     if ent is None or ent[5] is None or pos >= len(ent[5]):
                         continue
                     if ent[5][pos] != expected:
-                        fails.append({'kind': 'base', 'via': via, 'moved_class': bool(rr), 'before_R': before(mi, r),
+                        fails.append({'kind': 'base', 'via': via, 'moved_class': bool(rr), 'before_R': before(holder, r),
                                       'what': 'base %r of class %s.%s (%s)%s resolves to %r, not to %s'
                                               % (b, fn[mi], st[1], via, ', a class that is itself moved by a re-export,' if rr else '',
                                                  ent[5][pos], expected)})
@@ -190,12 +167,12 @@ def oracle_one(case: Any, dump: Any) -> List[Dict[str, Any]]:
             mi = P.module_of_scope(fn, q[0])
             if mi is None:
                 continue
-            via, expected = via_of(case, fn, mi, q[1], r)
+            via, expected, holder = via_of(case, fn, mi, q[1], r)
             if via is None or via == 'other':
                 continue
             for ch, idx in (('resolveName', 1), ('link_to', 2), ('xref', 3)):
                 if ans[idx] != expected:
-                    fails.append({'kind': ch, 'via': via, 'before_R': before(mi, r), 'what': '%s(%r) in %s (%s) gives %r, not %s'
+                    fails.append({'kind': ch, 'via': via, 'before_R': before(holder, r), 'what': '%s(%r) in %s (%s) gives %r, not %s'
                                   % (ch, q[1], q[0], via, ans[idx], expected)})
             if q[1] == old and ans[4] != [1, new]:
                 fails.append({'kind': 'find_object', 'via': 'attr-D', 'what': 'find_object(%r) gives %r, not %s' % (q[1], ans[4], new)})
@@ -204,11 +181,11 @@ def oracle_one(case: Any, dump: Any) -> List[Dict[str, Any]]:
             if mi is None:
                 continue
             for text, target in links:
-                via, expected = via_of(case, fn, mi, text, r)
+                via, expected, holder = via_of(case, fn, mi, text, r)
                 if via is None or via == 'other':
                     continue
                 if target != expected:
-                    fails.append({'kind': 'doclink', 'via': via, 'before_R': before(mi, r),
+                    fails.append({'kind': 'doclink', 'via': via, 'before_R': before(holder, r),
                                   'what': 'L{%s} in the docstring of %s (%s) links to %r, not to %s'
                                           % (text, key, via, target, expected)})
     return fails
@@ -301,7 +278,7 @@ class Check(c06.Check):
             # ran before the re-exporter moved the object (afterwards _importAll copies D's alias, i.e. the new name)
             if f['kind'] not in ('base', 'resolveName', 'link_to', 'xref', 'doclink'):
                 return False
-            return f['via'] == 'from-D' or (f['via'] == 'star-D' and f.get('before_R') is True)
+            return f['via'] in ('from-D', 'chain-from-D') or (f['via'] in ('star-D', 'chain-star-D') and f.get('before_R') is True)
 
         def rescoped(f: Any) -> bool:
             return f['kind'] == 'base' and f.get('moved_class') is True
@@ -332,6 +309,11 @@ class Check(c06.Check):
             for f in fails:
                 print('    FAIL', f)
             bad += len(fails)
+            if fails:
+                known, _ = lib.load_known_findings('C07')
+                k = self.classify_known(Violation('oracle', 'replay', case={'case': case, 'orders': [o]}, observed={'fails': fails}), known)
+                if k:
+                    print('    this is the listed known finding %s (a defect of the unchanged tree, not of a change under test)' % k['id'])
             if data.get('kind') == 'correspondence':
                 t = P.Tables()
                 b, _ = lib.build_model(self.id + '_project', 'XProject.v')
